@@ -477,6 +477,11 @@ def sp_runsum(eng, node, st):
     return vint(f(la, cp, i))
 
 
+def sp_mean_all(eng, node, st):
+    from . import models
+    return models.np_mean(eng, st, [eng.ev(node.args[0], st)], {}, node)
+
+
 def sp_transpose(eng, node, st):
     from . import models
     return models.transpose(eng, st, eng.ev(node.args[0], st))
@@ -492,7 +497,7 @@ def sp_cnt(eng, node, st):
     return vint(models.cnt(eng, st, a)(a, k, p))
 
 
-SPEC_BUILTINS = dict(cnt=sp_cnt, psum=sp_psum, rsum=sp_rsum, norm=sp_norm, norm2d=sp_norm2d, sqrt=sp_sqrt, matmul=sp_matmul, count_above=sp_count_above, trace=sp_trace, dict_get=sp_idict, dict_has=sp_idict, runsum=sp_runsum, ln=sp_ln, pi=sp_pi, isfinite=sp_isfinite, task_theta=sp_task_theta, spd_compressed_task=sp_spd_task, logdet=sp_logdet, is_spd=sp_is_spd, copyof=sp_copyof, rows_of=sp_rows_of, cov=sp_cov, colmean=sp_colmean, transpose=sp_transpose, eigh_of=sp_eigh_of, forall=sp_forall, exists=sp_exists, implies=sp_implies, ite=sp_ite, old=sp_old,
+SPEC_BUILTINS = dict(cnt=sp_cnt, psum=sp_psum, rsum=sp_rsum, norm=sp_norm, norm2d=sp_norm2d, sqrt=sp_sqrt, matmul=sp_matmul, mean_all=sp_mean_all, count_above=sp_count_above, trace=sp_trace, dict_get=sp_idict, dict_has=sp_idict, runsum=sp_runsum, ln=sp_ln, pi=sp_pi, isfinite=sp_isfinite, task_theta=sp_task_theta, spd_compressed_task=sp_spd_task, logdet=sp_logdet, is_spd=sp_is_spd, copyof=sp_copyof, rows_of=sp_rows_of, cov=sp_cov, colmean=sp_colmean, transpose=sp_transpose, eigh_of=sp_eigh_of, forall=sp_forall, exists=sp_exists, implies=sp_implies, ite=sp_ite, old=sp_old,
                      fresh=sp_fresh, allocated=sp_allocated, in_set=sp_in_set, same=sp_same, unchanged=sp_unchanged, isnone=sp_isnone, real=sp_real,
                      eqcontent=sp_eqcontent, let=sp_let, alloc_now=sp_alloc)
 
